@@ -535,6 +535,10 @@ func (r *Reader) ReadMessage(codec Codec) (messageInstance any, err error) {
 		return nil, err
 	}
 
+	if messageName == NilMessageName && len(messageData) == 0 {
+		return nil, nil
+	}
+
 	if messageDesc := QueryMessageDescByName(messageName); !messageDesc.IsOutside() {
 		// 内部消息反序列化
 		internalReader := NewReaderFromPool(messageData)
